@@ -17,13 +17,13 @@ class C11(Check):
         "logged_not_dropped_three_endpoints_counterexample",
         # the cluster
         "second_hop_no_echo", "net_only_entitled", "net_no_discard",
-        "no_duplicate", "finite", "finite_and_no_duplicate", "hdepth_of_rank",
+        "no_duplicate", "finite", "finite_and_no_duplicate", "hdepth_of_rank", "complete_when_connected",
         "finite_and_no_duplicate_partial", "complete_when_connected_partial",
         "no_duplicate_three_endpoints_counterexample",
     ]
     technique = ("Lean 4 proof (decision logic stated outright for the per-node relay function over ALL topologies; invariant by "
-                 "induction over deliveries for the cluster-wide safety statements; kernel-evaluated exhaustive enumeration, labelled as "
-                 "such, for the two composition statements) over a hand-written transcription of ApiListener::GetMaster / RelayMessageOne / "
+                 "induction over deliveries for the cluster-wide statements incl. the general no-duplicate / finiteness / completeness theorems; "
+                 "a kernel-evaluated exhaustive enumeration, labelled as such, is kept as a cross-check) over a hand-written transcription of ApiListener::GetMaster / RelayMessageOne / "
                  "SyncRelayMessage and of the origin construction in JsonRpcConnection::MessageHandler; correspondence by driving the real "
                  "ApiListener::RelayMessage on in-process cluster nodes (one process per topology, node identity switched) and diffing the "
                  "outgoing queues, the replay-log decision, the originZone/ts fields and the advanced log positions")
@@ -41,15 +41,17 @@ class C11(Check):
                   "the event twice, all recipients of messages ever sent are pairwise different (so fewer messages than endpoints are ever "
                   "sent: the event cannot circulate), i.e. the cluster-wide executable specification holds in every reachable state "
                   "(`no_duplicate`, `finite`, `finite_and_no_duplicate`), with a kernel-checked counterexample showing that 'at most two "
-                  "endpoints per zone' is necessary. The completeness statement (everybody entitled processes the event when masters are "
-                  "connected) is NOT proved in general: it is shipped as `complete_when_connected_partial`, established by kernel evaluation "
-                  "over an explicitly enumerated finite family (stated in the theorem). "
+                  "endpoints per zone' is necessary; and `complete_when_connected`, GENERAL as well: when the zone masters reach their peers and "
+                  "one endpoint of each directly related zone and every entitled zone has an endpoint, in every quiescent state every endpoint "
+                  "of every entitled zone has processed the event exactly once (flush invariant + induction along the path from the "
+                  "originating zone). The enumerated `..._partial` theorems (exhaustive kernel evaluation over a listed finite family) are "
+                  "kept as a cross-check of the executable forms of both statements. "
                   "The transcription is tied to the code by differential execution of the real ApiListener::RelayMessage.")
     level_note = ("Trusted: Lean kernel (+ propext, Classical.choice, Quot.sound), the sampled/enumerated correspondence, harness/driver. "
                   "Not modelled: connectivity changing while an event is in flight (C12), the `syncing` window (Q-C12b), TCP/TLS, the "
-                  "`ts`-based discard of old messages in MessageHandler (C12). The cluster-wide completeness statement is "
-                  "partial (finite family + simulation of the network model on every generated topology, all originators and object zones, "
-                  "seeded connectivity and delivery orders), not a proof of the unbounded claim.")
+                  "`ts`-based discard of old messages in MessageHandler (C12). The cluster-wide theorems are about the network MODEL (composition "
+                  "of the per-node function that the correspondence ties to the code); hypotheses: global zones have no parent, forest depth "
+                  "within the IsChildOf walk (<= 33), every zone with a parent is a registered Zone object.")
     trusted_base = [
         "modelled, not verified: only ApiListener::GetMaster, RelayMessageOne, SyncRelayMessage, the FromZone computation of "
         "JsonRpcConnection::MessageHandler and the handlers' CanAccessObject guard; std::sort of the names is modelled by the minimum "
@@ -57,8 +59,10 @@ class C11(Check):
         "the iteration order of std::set<Endpoint::Ptr> is an oracle input: the harness reports the order Zone::GetEndpoints() yields in "
         "the node process and the model iterates in that order; the driver checks that it is an arrangement of the configured members; "
         "the theorems hold for every order",
-        "the network model composes the per-node function; it is not tied to a multi-process run of the real code (the per-node "
-        "function and the origin construction, C13's harness, are)",
+        "the network model composes the per-node function; ONE network step (origin construction by the real MessageHandler, "
+        "acceptance by the real Zone::CanAccessObject, re-relay with that origin) is tied to the code by the D-line correspondence, "
+        "with a harness-registered ApiFunction standing for the cluster event handlers' glue (their guards: C13); a multi-process run "
+        "of whole propagations is not performed - the composition is covered by the theorems",
     ]
     assumptions = [
         "a node is connected to an endpoint iff a JsonRpcConnection object is attached to it (Endpoint::AddClient); connections are "
@@ -217,18 +221,23 @@ class C11(Check):
                     "MessageHandler can produce} x {every zone incl. the global one, no object} when it has at most 2500 (thorough 20000) "
                     "points, else that many seeded samples; unrelated endpoints' connectivity, one/two connections per endpoint, object kind "
                     "(Zone itself / User with zone attribute / none) and the log flag seeded; 1/8 extra cases with origins MessageHandler "
-                    "cannot produce; plus seeded topologies outside the property's quantifier (three endpoints per zone, several global "
+                    "cannot produce; per node identity additionally NETWORK STEPS (D lines): a raw JSON-RPC message from every other endpoint x "
+                    "originZone field (absent / every zone for zone peers, absent / one seeded zone for foreign senders) x object zone is handed "
+                    "to the real JsonRpcConnection::MessageHandler, whose registered handler discards by Zone::CanAccessObject or re-relays "
+                    "with the computed origin - compared with the model's `deliver` (originOf, accept, relay), full grid when at most cap/2 "
+                    "points, else seeded; plus seeded topologies outside the property's quantifier (three endpoints per zone, several global "
                     "zones, a global zone with endpoints). evaluations = RelayMessage calls; a call is non-trivial when something was sent, "
                     "skipped or persisted; distinct by (topology, node, call) text (counted by the Lean driver). Then the network model is "
                     "run on every generated topology (all originators x object zones x 12 (thorough 60) seeded symmetric connectivity patterns x 4 delivery orders, every node iterating the endpoint sets in its own order; completeness is checked whenever the pattern meets the property's connectivity hypothesis).")
+        ds = [l for l in all_lines if l.startswith("D ")]
         rs = [l for l in all_lines if l.startswith("R ")]
         ts = [l for l in all_lines if l.startswith("T ")]
-        res.samples = [ts[len(ts) // 2]] + rs[len(rs) // 2: len(rs) // 2 + 3] + ["..."] + [ts[-1]] + rs[-2:]
+        res.samples = [ts[len(ts) // 2]] + rs[len(rs) // 2: len(rs) // 2 + 3] + ["..."] + ds[len(ds) // 2: len(ds) // 2 + 2] + ["..."] + rs[-2:]
         return res
 
     def replay(self, path, harness, driver):
         data = json.load(open(path))
-        lines = [l for l in data.get("case", []) if l[:2] in ("T ", "R ")]
+        lines = [l for l in data.get("case", []) if l[:2] in ("T ", "R ", "D ")]
         out, shown = self._replay_lines(harness, driver, lines, "replay")
         print("\n".join(shown))
         print("\n".join(out))
